@@ -12,7 +12,7 @@
    SSH connection.  [c : cfg] selects repaired or unrepaired behaviour per defect found by this
    check; /repo now is [cfg_head] = [cfg_fixed]. *)
 From AV Require Import Base.Prelude Model.Socks Proofs.SocksProofs.
-From AV Require Import Model.Forward Proofs.ForwardInv Proofs.ForwardProofs.
+From AV Require Import Model.Forward Proofs.ForwardInv Proofs.ForwardProofs Proofs.ForwardSteps Proofs.ForwardTunnel.
 
 (* ---- relay ------------------------------------------------------------------------------- *)
 
@@ -162,6 +162,54 @@ Print Assumptions C20_no_assert.
 Theorem C20_no_assert_old_refuted : exists ops, asrt (run cfg_old st0 ops) = true.
 Proof. exists [CloseA; Confirm; PauseB]. exact assert_old_witness. Qed.
 Print Assumptions C20_no_assert_old_refuted.
+
+(* ---- all four ends: the tunnel ------------------------------------------------------------- *)
+
+(* [trun c ops]: local pair (client socket, channel), the two FIFO directions of the channel,
+   remote pair (channel, destination socket); ops = socket events at either end, the open
+   confirmation, and deliveries of the oldest channel message in either direction, in any order. *)
+
+(* no reordering, duplication or invention end to end: what was written to the destination socket
+   is a prefix of what the client socket delivered, and vice versa, for every interleaving *)
+Theorem C20_tunnel_relay_order : forall c ops, let t := trun c ops in
+  (exists rest, inA (tl t) = written (outA (tr_ t)) ++ rest) /\
+  (exists rest, inA (tr_ t) = written (outA (tl t)) ++ rest).
+Proof. exact tunnel_prefix. Qed.
+Print Assumptions C20_tunnel_relay_order.
+
+(* ... and complete: when nothing is in flight and the receiving pair is alive (channel session
+   open, no EOF received yet, socket there), every byte has arrived *)
+Theorem C20_tunnel_relay_complete : forall c ops, let t := trun c ops in
+  (ph (tl t) = Confirmed -> q12 t = [] ->
+   f_tr (sb (tr_ t)) = true -> f_eof (sb (tr_ t)) = false -> lostB (tr_ t) = false -> f_tr (sa (tr_ t)) = true ->
+   written (outA (tr_ t)) = inA (tl t)) /\
+  (q21 t = [] ->
+   f_tr (sb (tl t)) = true -> f_eof (sb (tl t)) = false -> lostB (tl t) = false -> f_tr (sa (tl t)) = true ->
+   written (outA (tl t)) = inA (tr_ t)).
+Proof. exact tunnel_complete. Qed.
+Print Assumptions C20_tunnel_relay_complete.
+
+(* half-close end to end: once the client socket has half-closed (before or after the channel was
+   confirmed) and everything in flight has arrived, the destination socket has been sent exactly
+   one EOF (after all data, C20_half_close_order), provided the remote pair still exists; and the
+   same from the destination to the client *)
+Theorem C20_tunnel_half_close : forall c ops, let t := trun c ops in
+  (ph (tl t) = Confirmed -> f_eof (sa (tl t)) = true -> q12 t = [] ->
+   lostB (tr_ t) = false -> f_tr (sa (tr_ t)) = true -> count_eof (outA (tr_ t)) = 1%nat) /\
+  (f_eof (sa (tr_ t)) = true -> q21 t = [] ->
+   lostB (tl t) = false -> f_tr (sa (tl t)) = true -> count_eof (outA (tl t)) = 1%nat).
+Proof. intros c ops t. split; [apply tunnel_eof_12 | apply tunnel_eof_21]. Qed.
+Print Assumptions C20_tunnel_half_close.
+
+(* closing either end closes both: once the client socket (code as repaired by a38f966: also if
+   that happened before the confirmation) or the destination socket is lost and the resulting
+   channel close has arrived, all four transports are closed *)
+Theorem C20_tunnel_close_both : forall c ops, let t := trun c ops in
+  (fix_lost_early c = true -> ph (tl t) = Confirmed -> lostA (tl t) = true -> q12 t = [] ->
+   tun_all_closed t = true) /\
+  (ph (tl t) = Confirmed -> lostA (tr_ t) = true -> q21 t = [] -> tun_all_closed t = true).
+Proof. intros c ops t. split; [apply tunnel_close_from_local | apply tunnel_close_from_remote]. Qed.
+Print Assumptions C20_tunnel_close_both.
 
 (* ---- permission --------------------------------------------------------------------------- *)
 
